@@ -547,6 +547,41 @@ func rangeLoops(fn *ssa.Function) []*RLoop {
 				}
 			}
 		}
+		// `for i := range x` that reads x[i] more than once, or first takes its address (`it := &x[i]`): every load
+		// of x[i] in the loop is the element
+		var hdrIdx ssa.Value
+		for _, in := range h.Instrs {
+			if bo, ok := in.(*ssa.BinOp); ok && bo.Op == token.ADD {
+				hdrIdx = bo
+			}
+		}
+		if hdrIdx != nil {
+			for b := range l.Blocks {
+				for _, in := range b.Instrs {
+					ia, ok := in.(*ssa.IndexAddr)
+					if !ok || ia.Index != hdrIdx {
+						continue
+					}
+					if l.X == nil {
+						l.X = ia.X
+					}
+					if ia.X != l.X {
+						continue
+					}
+					for _, r := range *ia.Referrers() {
+						if ld, ok := r.(*ssa.UnOp); ok && ld.Op == token.MUL {
+							if l.Elems == nil {
+								l.Elems = map[ssa.Value]bool{}
+							}
+							l.Elems[ld] = true
+							if l.Elem == nil {
+								l.Elem = ld
+							}
+						}
+					}
+				}
+			}
+		}
 		if l.X == nil {
 			// the ranged value is what len() in the preheader measured
 			for _, in := range h.Instrs {
@@ -1703,6 +1738,29 @@ func explorePathsX(fn *ssa.Function, start ssa.Instruction, target ssa.Instructi
 			if r := assume(v); r != U {
 				return r
 			}
+			// an outcome code the path has made definite: `switch code { case dropped: …` after code came in
+			// as one of the constants of the arms that set it
+			if x.Op == token.EQL || x.Op == token.NEQ {
+				res := func(o ssa.Value) *ssa.Const {
+					for i := 0; i < 16; i++ {
+						ph, isPhi := o.(*ssa.Phi)
+						if !isPhi {
+							break
+						}
+						e, has := ps.phi[ph]
+						if !has {
+							break
+						}
+						o = e
+					}
+					k, _ := o.(*ssa.Const)
+					return k
+				}
+				if kx, ky := res(x.X), res(x.Y); kx != nil && ky != nil && kx.Value != nil && ky.Value != nil &&
+					(kx.Value.Kind() == constant.Int || kx.Value.Kind() == constant.String) && kx.Value.Kind() == ky.Value.Kind() {
+					return tri(constant.Compare(kx.Value, token.EQL, ky.Value) == (x.Op == token.EQL))
+				}
+			}
 			if opnd, nilWhenTrue, ok := nilTest(v); ok {
 				for i := 0; i < 16; i++ {
 					ph, isPhi := opnd.(*ssa.Phi)
@@ -2148,7 +2206,6 @@ func guardedNil(b *ssa.BasicBlock, is func(v ssa.Value) bool, wantNil bool) bool
 	return false
 }
 
-
 // sameValue: the two operands denote the same value: the same SSA value, or loads of one local /
 // access paths that read the same thing (a variable captured by a closure lives in a cell and every
 // use is a separate load of it).
@@ -2335,7 +2392,6 @@ func isConstInt(v ssa.Value, k int64) bool {
 	return ok && c.Value != nil && c.Value.Kind() == constant.Int && c.Int64() == k
 }
 
-
 // timeOrder: c is a.Before(b) or a.After(b) on time.Time values; returns the operands as (earlier, later) when the
 // call yields true - the same comparison whichever side it is read from (b.After(a) for a.Before(b)).
 func timeOrder(c *ssa.Call) (earlier, later ssa.Value, ok bool) {
@@ -2350,7 +2406,6 @@ func timeOrder(c *ssa.Call) (earlier, later ssa.Value, ok bool) {
 	}
 	return nil, nil, false
 }
-
 
 // valueSources: phiLeaves, and through a local slice that is filled and then walked (`texts = append(texts, c.BareCall)
 // ... for _, t := range texts`): an element read from such a slice stands for every value appended to it.
@@ -2431,7 +2486,6 @@ func valueSources(v ssa.Value) []ssa.Value {
 	return out
 }
 
-
 // isPredicateEvalCall: an invocation of a predicate object's evaluation method: Evaluate(env) bool, or a variant
 // that also reports why a row was rejected (EvaluateWithError(env) (bool, error)) - any interface method named
 // Evaluate… whose first result is the boolean verdict.
@@ -2455,4 +2509,109 @@ func predicateVerdict(v ssa.Value) bool {
 		}
 	}
 	return false
+}
+
+// elementwiseCopy: dst is filled by a counting loop `for i := 0; i < N; i++ { dst[i] = src[i] … }` (or the range
+// form over an index) whose body runs the store on every iteration and which is left only by its test. Returns
+// the source slice and the bound N. The store covers exactly the indexes 0 … N-1, as copy(dst[:N], src[:N]) does.
+func elementwiseCopy(dst ssa.Value) (src, bound ssa.Value, ok bool) {
+	refs := dst.Referrers()
+	if refs == nil {
+		return nil, nil, false
+	}
+	for _, r := range *refs {
+		ia, isIA := r.(*ssa.IndexAddr)
+		if !isIA || ia.X != dst {
+			continue
+		}
+		for _, rr := range *ia.Referrers() {
+			st, isSt := rr.(*ssa.Store)
+			if !isSt || st.Addr != ssa.Value(ia) {
+				continue
+			}
+			ld, isLd := st.Val.(*ssa.UnOp)
+			if !isLd || ld.Op != token.MUL {
+				continue
+			}
+			sa, isSA := ld.X.(*ssa.IndexAddr)
+			if !isSA || sa.Index != ia.Index {
+				continue
+			}
+			idx := ia.Index
+			// the counter: phi [0, phi+1] used as the index, or (range form) phi [-1, phi+1] with phi+1 as the index
+			var phi *ssa.Phi
+			start := int64(0)
+			if p, isPhi := idx.(*ssa.Phi); isPhi {
+				phi = p
+			} else if inc, isInc := idx.(*ssa.BinOp); isInc && inc.Op == token.ADD && isConstInt(inc.Y, 1) {
+				if p, isPhi := inc.X.(*ssa.Phi); isPhi {
+					phi, start = p, -1
+				}
+			}
+			if phi == nil || len(phi.Edges) != 2 {
+				continue
+			}
+			H := phi.Block()
+			var latch *ssa.BasicBlock
+			okPhi := true
+			for i, e := range phi.Edges {
+				pred := H.Preds[i]
+				if H.Dominates(pred) {
+					inc, isInc := e.(*ssa.BinOp)
+					if !isInc || inc.Op != token.ADD || inc.X != ssa.Value(phi) || !isConstInt(inc.Y, 1) {
+						okPhi = false
+					}
+					latch = pred
+				} else if !isConstInt(e, start) {
+					okPhi = false
+				}
+			}
+			if !okPhi || latch == nil {
+				continue
+			}
+			iff, isIf := H.Instrs[len(H.Instrs)-1].(*ssa.If)
+			if !isIf {
+				continue
+			}
+			cmp, isCmp := iff.Cond.(*ssa.BinOp)
+			if !isCmp || cmp.Op != token.LSS || cmp.X != idx {
+				continue
+			}
+			body := H.Succs[0]
+			// the natural loop of the back edge latch -> H
+			loop := map[*ssa.BasicBlock]bool{H: true}
+			stack := []*ssa.BasicBlock{latch}
+			for len(stack) > 0 {
+				b := stack[len(stack)-1]
+				stack = stack[:len(stack)-1]
+				if loop[b] {
+					continue
+				}
+				loop[b] = true
+				stack = append(stack, b.Preds...)
+			}
+			left := false
+			for b := range loop {
+				if b == H {
+					continue
+				}
+				if !(body == b || body.Dominates(b)) {
+					left = true
+				}
+				for _, s := range b.Succs {
+					if !loop[s] {
+						left = true // a break, return or panic edge out of the body
+					}
+				}
+				if _, isRet := b.Instrs[len(b.Instrs)-1].(*ssa.Return); isRet {
+					left = true
+				}
+			}
+			if left || !loop[st.Block()] || !(st.Block() == latch || st.Block().Dominates(latch)) {
+				continue
+			}
+			return sa.X, cmp.Y, true
+		}
+	}
+	return nil, nil, false
 }
